@@ -526,6 +526,7 @@ def run(ctx):
     short_circuit_second_operand(ctx)
     printed_operations_keep_their_grouping(ctx)
     escape_sequences_follow_the_standard(ctx)
+    hex_escapes_run_to_the_last_hex_digit(ctx)
     alternative_tokens_follow_the_standard(ctx)
     macro_expansions_are_spliced_unchanged(ctx)
 
@@ -1275,6 +1276,35 @@ def escape_sequences_follow_the_standard(ctx):
         ok = len(simple) == 1 and all(c == SIMPLE_ESCAPES[simple[0]] for c in consts)
         ctx.ob("R07.16", "scan_escape_sequence|\\%s|standard-value" % simple[0], ok, f.loc(stmts[0]), "\\%s -> %s (standard: %s)" % (simple[0], consts, SIMPLE_ESCAPES[simple[0]]))
     ctx.floor("R07.16", "simple escapes returning a constant", n, 7)
+
+
+def hex_escapes_run_to_the_last_hex_digit(ctx):
+    """R07.19: a hexadecimal escape has no length limit ([lex.ccon]: `\\x` followed by one OR MORE hex digits, all of
+    which belong to it), unlike an octal one (at most three).  In the `x` arm of scan_escape_sequence the step that folds a
+    further digit into the value - `hex_val(get())` - must therefore sit in a loop, not in an `if`.  (F-C07k, found in
+    triage of a round-12 observation: two digits were read and the rest left behind, so `'\\x041'` was recorded as 4 and
+    `int arr['\\x00002']` as `arr[0]`; g++: 65 and 2.)"""
+    db = ctx.db
+    ctx.rule("R07.19", "in scan_escape_sequence every hex_val(get()) that extends a hex escape is inside a loop")
+    fs = [g for g in db.functions if g.name == "CPPPreprocessor::scan_escape_sequence"]
+    if not fs:
+        ctx.broken("R07.19: scan_escape_sequence not found")
+        return
+    f = fs[0]
+    n = 0
+    for c in f.walk():
+        if c.get("k") != "call" or callee_short(c) != "hex_val":
+            continue
+        a = [strip_casts(x) for x in (c.get("a") or [])]
+        if not (a and a[0] is not None and a[0].get("k") == "call" and callee_short(a[0]) == "get"):
+            continue            # hex_val(c) of the first digit, already read
+        n += 1
+        loop = next((z for z in f.ancestors(c) if z.get("k") in ("while", "for", "do")), None)
+        more = loop is not None and any(y.get("k") == "call" and callee_short(y) == "isxdigit" for y in walk(loop.get("c") or {}))
+        ctx.ob("R07.19", "scan_escape_sequence|hex_val(get())@%s|in-a-loop-over-isxdigit" % f.loc(c).split(":")[-1], bool(more), f.loc(c),
+               "digits are folded in for as long as isxdigit() holds" if more else
+               ("the further digit is read once, not in a loop: a third hex digit is left outside the escape" if loop is None else "the enclosing loop is not conditioned on isxdigit()"))
+    ctx.floor("R07.19", "digit-extension steps of the hex escape", n, 1)
 
 
 # ISO C++ [lex.digraph] table 3: alternative token -> primary token, as this lexer names them
